@@ -34,6 +34,9 @@ def population(rng, n, with_foreign):
             if rng.below(2):
                 mt = BASE - HOUR + delta
                 L.append("plant {D}/.kismet_temp/t%d z 600 %d %d" % (j, mt, mt))
+        # an in-flight temp file of a peer whose clock runs ahead: its mtime is in OUR future
+        if rng.below(2):
+            L.append("plant {D}/.kismet_temp/ahead z 600 %d %d" % (BASE + 300 * 10**9, BASE + 300 * 10**9))
         if rng.below(3) == 0:
             L.append("mkdir {D}/.kismet_temp/nested")
             L.append("plant {D}/.kismet_temp/nested/deep z 600 %d %d" % (BASE - 2 * HOUR, BASE - 2 * HOUR))
